@@ -102,11 +102,28 @@ class Sim13:
         self.cycles: list[dict] = []
         self.marks: list[dict] = []
         self.guard_failures: list[dict] = []
+        self.writes: list[dict] = []
         self.toggle_set: dict[int, Any] = {}       # id(toggle) -> (toggle, set)
         self.sets: dict[int, dict] = {}            # id(set) -> {"inc":, "fn":}
         self.dead: set[int] = set()
         self.delivery = {k: float(v) for k, v in (sc.get("delivery") or {}).items()}
         self.cluster.echo_delay = self._echo_delay
+        for f in sc.get("faults", []):
+            self.cluster.fault_rules.append(self._mk_fault(f))
+
+    def _mk_fault(self, f: dict) -> Any:
+        """{"who": name, "after": t, "method": "PATCH", "res": "peering", "status": 503}: the API refuses such requests"""
+        from ..sim import fakeapi
+
+        def rule(req: dict) -> Any:
+            if req["who"].split("#")[0].split("-r")[0] != f.get("who"):
+                return None
+            if req["method"] != f.get("method", "PATCH") or self.now() < float(f.get("after", 0.0)):
+                return None
+            if f.get("res", "peering") == "peering" and "/clusterkopfpeerings" not in req["path"]:
+                return None
+            return fakeapi.Fault("status", int(f.get("status", 503)))
+        return rule
 
     # ---- helpers --------------------------------------------------------------------------------
     def now(self) -> float:
@@ -354,7 +371,7 @@ class Sim13:
         incs = [{k: v for k, v in i.items() if not k.startswith("_")} for i in self.incs]
         return {"t_end": t_end, "incs": incs, "toggles": self.toggles, "pcalls": self.pcalls, "ka": self.ka,
                 "touches": self.touches, "calls": self.calls, "cycles": self.cycles, "marks": self.marks,
-                "peering_history": phist, "kex_history": khist, "requests": reqs, "guard_failures": self.guard_failures}
+                "peering_history": phist, "kex_history": khist, "requests": reqs, "guard_failures": self.guard_failures, "writes": self.writes}
 
 
 # =================================================================================================
@@ -544,7 +561,15 @@ def installed(sim: Sim13) -> Iterator[None]:
     o_serve = fakeapi.FakeSession._serve
 
     def _serve(self: Any, req: dict, method: str, path: str, query: dict, *a: Any, **k: Any) -> Any:
+        pk = (sim.peer_res.key, None, sim.pname)
+        is_peer_patch = method == "PATCH" and "/clusterkopfpeerings/" in path
+        before = copy.deepcopy((sim.cluster.objects.get(pk) or {}).get("status")) if is_peer_patch else None
         resp = o_serve(self, req, method, path, query, *a, **k)
+        if is_peer_patch and resp.status == 200:
+            payload = a[0] if a else k.get("payload")
+            sim.writes.append({"t": sim.now(), "t_issue": req["t"], "who": self.identity,
+                               "patch": copy.deepcopy((payload or {}).get("status")) if isinstance(payload, dict) else None,
+                               "before": before, "after": copy.deepcopy((sim.cluster.objects.get(pk) or {}).get("status"))})
         if method == "GET" and "/kopfexamples" in path and resp.watch is None and isinstance(resp.payload, dict) and "items" in resp.payload:
             req["listed"] = [[it["metadata"].get("name"), it["metadata"].get("resourceVersion")] for it in resp.payload["items"]]
         return resp
